@@ -120,6 +120,9 @@ class Verifier:
         env = {}
         for k, v in self.spec_env_raw.items():
             env[k] = v
+        for ci in self.P.classes.values():
+            if ci.enum_kind and ci.name not in env:
+                env[ci.name] = ClassV(ci)
         I.spec_env = _LazyEnv(I, env, self.P)
         return I
 
@@ -191,7 +194,7 @@ class Verifier:
         for name, expr in C.let.items():
             sf.locals[name] = I.spec_eval(ast.parse(expr, mode='eval').body)
         for cl in C.requires:
-            I.assume(I.spec_bool(cl.ast))
+            I.assume_spec(I.spec_bool(cl.ast))
         if first:
             r = I.check()
             if r == z3.unsat:
@@ -259,18 +262,24 @@ class Verifier:
             site = {'function': pr.origin[0], 'line': pr.origin[1], 'text': pr.origin[2], 'exception': cname} \
                 if pr.origin else {'exception': cname}
             matched = None
+            alts = []
             for rc in C.raises:
                 if self.exc_is(I, pr.exc, rc.exc):
-                    matched = rc
-                    break
+                    if matched is None:
+                        matched = rc
+                    if rc.exc == matched.exc:
+                        alts.append(rc)
             if matched is None and not C.any_raise_ok:
-                add('raises-only', cname.split('.')[-1], z3.BoolVal(False), None,
+                esc = ['C29'] if 'C29' in props else (['C17'] if 'C17' in props else None)
+                add('raises-only', cname.split('.')[-1], z3.BoolVal(False), esc,
                     'no exception outside the declared set may escape (got %s)' % cname, site=site)
             elif matched is not None:
                 sf.locals['exc'] = pr.exc
-                if matched.when_ast is not None:
-                    add('raises-when', matched.label, self._old_bool(I, matched.when_ast), matched.props,
-                        '%s only when %s' % (matched.exc, matched.when), site=site)
+                if all(rc.when_ast is not None for rc in alts):
+                    goal = z3.Or(*[self._old_bool(I, rc.when_ast) for rc in alts])
+                    allprops = sorted({p for rc in alts for p in (rc.props or props)})
+                    add('raises-when', matched.exc, goal, allprops,
+                        '%s only when %s' % (matched.exc, ' OR '.join('(%s)' % rc.when for rc in alts)), site=site)
                 else:
                     add('raises-only', matched.label, z3.BoolVal(True), matched.props,
                         '%s is a declared exception' % matched.exc, site=site)
@@ -314,6 +323,10 @@ class Verifier:
         return extern_exc_is_subclass(o.cls, name)
 
     # ------------------------------------------------------------------
+    def skolemize(self, I, g):
+        sk = []
+        return _skolemize(I, g, sk), sk
+
     def discharge(self, I, ob, goal, inputs):
         t0 = time.time()
         g = simp_bool(goal)
@@ -323,15 +336,36 @@ class Verifier:
             ob.result, ob.backend = 'proved', 'simplifier'
             ob.ms = (time.time() - t0) * 1000
             return
+        # Skolemise universally quantified goal conjuncts and instantiate the
+        # deferred invariants at the Skolem constants (quantifier-free query)
+        g_qf, skolems = self.skolemize(I, zbool(g))
         s.push()
-        s.add(z3.Not(zbool(g)))
+        for k0 in skolems:
+            for q in I.deferred:
+                s.add(z3.substitute_vars(q.body(), k0))
+        s.add(z3.Not(g_qf))
         r = s.check()
+        first_model = None
+        if r != z3.unsat and I.deferred:
+            # fallback: the full quantified assumptions
+            if r == z3.sat:
+                first_model = s.model()
+            s.push()
+            for q in I.deferred:
+                s.add(q)
+            r2 = s.check()
+            s.pop()
+            if r2 == z3.unsat:
+                r = z3.unsat
+                ob.note = 'needed the quantified invariant'
+            elif r == z3.sat:
+                ob.note = 'refuted on the instantiated invariant; quantified check: %s' % r2
         if r == z3.unsat:
             ob.result, ob.backend = 'proved', 'z3'
         elif r == z3.sat:
             ob.result, ob.backend = 'refuted', 'z3'
             try:
-                m = s.model()
+                m = first_model if first_model is not None else s.model()
                 cur = I.heap
                 I.heap = I.old_heap if I.old_heap is not None else cur
                 try:
@@ -352,6 +386,24 @@ class Verifier:
         s.pop()
         s.set('timeout', 2000)
         ob.ms = (time.time() - t0) * 1000
+
+
+def _skolemize(I, g, skolems):
+    if z3.is_and(g):
+        return z3.And(*[_skolemize(I, c, skolems) for c in g.children()])
+    if z3.is_quantifier(g) and g.is_forall():
+        ks = []
+        for i in range(g.num_vars()):
+            I.counter += 1
+            k0 = z3.Const('sk!%d' % I.counter, g.var_sort(i))
+            ks.append(k0)
+        skolems.extend([k for k in ks if z3.is_int(k)])
+        body = z3.substitute_vars(g.body(), *reversed(ks))
+        return _skolemize(I, body, skolems)
+    if z3.is_implies(g):
+        a, b = g.children()
+        return z3.Implies(a, _skolemize(I, b, skolems))
+    return g
 
 
 def run_cvc5(smt2, timeout_ms):
